@@ -129,6 +129,19 @@ def agfc (t : Coef) : Spec :=
     init := [],
     metrics := [agfcMetric t] }
 
+/-- `adaptive_methods.polyak_steps_in_distance_to_optimum`: `x⋆ ↦ 0` (value leaf 0), `x0 ↦ 1`, `oracle(x0)` creates `g0 ↦ 2`, `f0` (value
+leaf 1), `x1 = x0 − γ g0`, `oracle(x1)` creates `g1 ↦ 3`, `f1` (value leaf 2); constraints `‖x0 − x⋆‖² ≤ 1` and the Polyak step
+`γ ‖g0‖² = 2 (f0 − f⋆)` (an equality); metric `‖x1 − x⋆‖²` -/
+def polyakInit : EDict := EDict.subConst (PDict.sq (PDict.sub [(1, 1)] [(0, 1)])) 1
+def polyakStep (γ : Coef) : EDict :=
+  EDict.sub (EDict.smul γ (PDict.sq [(2, 1)])) (EDict.smul 2 (EDict.sub [(EKey.f 1, 1)] [(EKey.f 0, 1)]))
+def polyakMetric (γ : Coef) : EDict := PDict.sq (PDict.sub (gdlNext γ) [(0, 1)])
+
+def polyakd (γ : Coef) : Spec :=
+  { samples := [([(0, 1)], [], [(EKey.f 0, 1)]), ([(1, 1)], [(2, 1)], [(EKey.f 1, 1)]), (gdlNext γ, [(3, 1)], [(EKey.f 2, 1)])],
+    init := [(polyakInit, false), (polyakStep γ, true)],
+    metrics := [polyakMetric γ] }
+
 /-! ### specifications without a theorem attached (correspondence only): the script builds exactly this model -/
 
 /-- `unconstrained_convex_minimization.gradient_descent`: `x⋆ ↦ 0` (value leaf 0), `x0 ↦ 1`; `gradient(x_k)` creates `g_k ↦ 2+k` and
